@@ -173,11 +173,20 @@ def check_function(prog, res, fn, rule='T4'):
   for s in ast.walk(fn.node):
     elems = []
     what = None
-    if isinstance(s, ast.Subscript) and isinstance(s.slice, ast.Tuple) and \
+    key = s.slice if isinstance(s, ast.Subscript) else None
+    if isinstance(key, ast.Name) and isinstance(s.value, ast.Name):
+      # a key built once into a local: d[key] with key = ('FAMILY', c, g)
+      cands = [st for st in ast.walk(fn.node) if isinstance(st, ast.Assign)
+               and len(st.targets) == 1 and isinstance(
+                   st.targets[0], ast.Name) and st.targets[0].id == key.id
+               and st.lineno <= s.lineno]
+      if cands:
+        key = max(cands, key=lambda st: st.lineno).value
+    if isinstance(s, ast.Subscript) and isinstance(key, ast.Tuple) and \
         isinstance(s.value, ast.Name) and any(
             isinstance(x, ast.Constant) and isinstance(x.value, str)
-            for x in s.slice.elts):
-      elems = [x for x in s.slice.elts if not isinstance(x, ast.Constant)]
+            for x in key.elts):
+      elems = [x for x in key.elts if not isinstance(x, ast.Constant)]
       what = 'key of %s[...]' % s.value.id
     elif isinstance(s, ast.Call) and dotted(s.func) == 'set' and s.args:
       ctx = _Ctx(prog, fn, _scope_of(fn, s))
